@@ -6,7 +6,7 @@ import copy
 import typing as t
 import uuid
 
-from .. import taps  # noqa: F401
+from .. import taps
 from .. import blobref, refdc, sdref
 from ..core import Ctx, MachineryError
 from ..tlc import require_ok, run_tlc
@@ -99,7 +99,7 @@ def one_call(ctx: Ctx, cfg: dict) -> dict:
         dc.transcript.clear()
         dc.getkey_log.clear()
         try:
-            with refdc.Network(dc):
+            with refdc.Network(dc), taps.time_limit(40):
                 if cfg["op"] == "unprotect":
                     out = dpapi_ng.ncrypt_unprotect_secret(blob, **kw) if fl == "sync" else asyncio.run(dpapi_ng.async_ncrypt_unprotect_secret(blob, **kw))
                     res[fl] = "plain_ok" if out == plain else "plain_wrong"
@@ -119,7 +119,7 @@ def one_call(ctx: Ctx, cfg: dict) -> dict:
                         named[fl] = [-1, -1, -1]
         except MachineryError:
             raise
-        except Exception as e:  # noqa
+        except (Exception, taps.Hang) as e:  # noqa
             res[fl] = "error:" + type(e).__name__
             named[fl] = [-1, -1, -1]
         trs[fl] = normalise(copy.deepcopy(dc.transcript))
